@@ -217,6 +217,8 @@ def sites_of(body):
             if m.startswith(IGNORED_ASSERTS):
                 continue
             ks = sorted(expr_key(body, o) for o in t['ops']) if m != 'BoundsCheck' and not m.startswith('Overflow(Sub') and not m.startswith('Overflow(Sh') else [expr_key(body, o) for o in t['ops']]
+            if m in ('DivisionByZero', 'RemainderByZero'):
+                ks = ['dividend=' + k for k in ks]
             out.append(Site(body, i, m, ','.join(ks), t['ops']))
         elif t['t'] == 'call':
             f = t.get('f', '')
@@ -347,9 +349,24 @@ def discharge(facts, s):
             return f'index bounded to {mb} bits, array length {lv}'
         return None
     if s.kind in ('DivisionByZero', 'RemainderByZero'):
-        d = t['ops'][0]
-        if 'k' in d and d['k'].get('v'):
-            return 'constant non-zero divisor'
+        # the assert operand is the dividend; the divisor is what `cond` compares with 0
+        c = op_place(t['cond'])
+        if c is not None and len(c) == 1:
+            ds = [d for d in body.defs.get(c[0], ()) if not body.is_cleanup(d[0])]
+            if len(ds) == 1 and ds[0][2] == 'assign' and ds[0][3][1].get('op') == 'bin' and ds[0][3][1].get('b') == 'Eq':
+                a, b = ds[0][3][1]['a']
+                div = a if ('k' in b and b['k'].get('v') == 0) else b
+                if 'k' in div and div['k'].get('v'):
+                    return f'constant non-zero divisor {div["k"]["v"]}'
+                kd = expr_key(body, div)
+
+                def want(x, y, o, oa, ob):
+                    if x == kd and 'k' in ob and ob['k'].get('v') == 0:
+                        return {'Eq': 'F', 'Ne': 'T', 'Gt': 'T'}.get(o)
+                    return None
+                edges = _cmp_edges(body, want)
+                if edges and s.bb not in prims.reach(body, (0,), cut_edges=edges):
+                    return f'{kd} != 0 on every path to the division'
         return None
     if s.kind == 'panic':
         # `_ => unreachable!()` after a switch that lists every value the scrutinee can take
